@@ -1,4 +1,11 @@
-(** Wire entry points of property C01 (stub: replaced when the model is built). *)
+(** Wire entry points of property C01 (sub 99: decode a tree and dump it again,
+    used to validate the tree wire format against harness/treedump.py). *)
 From Coq Require Import ZArith List.
-From PLV Require Import Base.Wire.
-Definition entry (sub : Z) (inp : list Z) : list Z := bad_input.
+From PLV Require Import Base.Wire Parse.Nodes.
+Definition entry (sub : Z) (inp : list Z) : list Z :=
+  if Z.eqb sub 99 then
+    match rd_tree inp with
+    | Some (o, _) => to_wire (show_onode o)
+    | None => bad_input
+    end
+  else bad_input.
